@@ -146,6 +146,12 @@ class PersistentMixin(Module):
         self.__save_params()
 
     def __save_params(self):
+        # one save at a time: an automatic save (a parameter callback, called with the
+        # update lock held) and an explicit saveParameters share the temporary file
+        with self.updateLock:
+            self.__save_params_locked()
+
+    def __save_params_locked(self):
         data = {k: v.export_value() for k, v in self.parameters.items()
                 if getattr(v, 'persistent', False)}
         if data != self.persistentData:
